@@ -100,7 +100,9 @@ func c06Replay(args []string) {
 	dir := fs.String("dir", "", "")
 	suffix := fs.String("suffix", "B", "")
 	interleave := fs.Float64("interleave", 0, "probability of extra serialised CheckTx/Query/Simulate calls between consensus calls")
+	restart := fs.Float64("restart", 0, "probability per Commit of restarting the application on the same database")
 	file := fs.String("file", "", "replay a single trace file and print digests")
+	dump := fs.Bool("dump", false, "with -file: print the decoded messages of the trace instead of replaying it")
 	fs.Parse(args)
 	if *file != "" {
 		chains, err := chain.ReadTrace(*file)
@@ -108,15 +110,44 @@ func c06Replay(args []string) {
 			fmt.Fprintln(stdout, err)
 			os.Exit(2)
 		}
+		if *dump {
+			enc := app.MakeEncodingConfig()
+			for ci, ch := range chains {
+				for i, op := range ch {
+					if op.Op != "tx" && op.Op != "sim" {
+						fmt.Fprintf(stdout, "chain %d step %d %s h=%d %s\n", ci, i, op.Op, op.Height, op.Info)
+						continue
+					}
+					tx, err := enc.TxConfig.TxDecoder()(op.Bytes)
+					if err != nil {
+						fmt.Fprintf(stdout, "chain %d step %d %s undecodable: %v\n", ci, i, op.Op, err)
+						continue
+					}
+					for _, m := range tx.GetMsgs() {
+						bz, _ := enc.Marshaler.MarshalJSON(m)
+						js := string(bz)
+						if len(js) > 400 {
+							js = js[:400] + "..."
+						}
+						fmt.Fprintf(stdout, "chain %d step %d %s h=%d %s: %s %s\n", ci, i, op.Op, op.Height, op.Info, sdk.MsgTypeURL(m), js)
+					}
+				}
+			}
+			return
+		}
 		bad := 0
 		for ci, ch := range chains {
-			out, err := chain.Replay(ch, chain.ReplayOpts{Interleave: *interleave, Rng: rand.New(rand.NewSource(*seed))})
+			out, err := chain.Replay(ch, chain.ReplayOpts{Interleave: *interleave, Restart: *restart, Rng: rand.New(rand.NewSource(*seed))})
 			if err != nil {
 				fmt.Fprintf(stdout, "chain %d: replay error %v\n", ci, err)
 				bad++
 				continue
 			}
 			for i := range out {
+				if ch[i].Op != "init" && out[i].Digest != ch[i].Digest && ch[i].Digest2 != "" && out[i].Digest2 == ch[i].Digest2 && out[i].Class == "stateless-reject/first-block-after-restart" {
+					fmt.Fprintf(stdout, "chain %d step %d (%s h=%d): only GasUsed differs on a transaction rejected by ValidateBasic in the first block after a restart (listed finding): recorded %s replayed %s\n", ci, i, ch[i].Op, ch[i].Height, ch[i].Info, out[i].Info)
+					continue
+				}
 				if ch[i].Op != "init" && out[i].Digest != ch[i].Digest {
 					fmt.Fprintf(stdout, "chain %d step %d (%s h=%d): recorded %s (%s) replayed %s (%s)\n", ci, i, ch[i].Op, ch[i].Height, ch[i].Digest, ch[i].Info, out[i].Digest, out[i].Info)
 					bad++
@@ -138,7 +169,7 @@ func c06Replay(args []string) {
 		fmt.Fprintf(os.Stderr, "replay case %d\n", k)
 		var outs [][]chain.TraceOp
 		for _, ch := range chains {
-			out, err := chain.Replay(ch, chain.ReplayOpts{Interleave: *interleave, Rng: rand.New(rand.NewSource(*seed*31 + int64(k)))})
+			out, err := chain.Replay(ch, chain.ReplayOpts{Interleave: *interleave, Restart: *restart, Rng: rand.New(rand.NewSource(*seed*31 + int64(k)))})
 			if err != nil {
 				out = append(out, chain.TraceOp{Op: "error", Info: err.Error()})
 			}
